@@ -52,3 +52,46 @@ Theorem C08_interpreter_raises_only_what_actions_raise :
     forall f doact e p cp ex, run env act src f doact e p cp = PRaise ex -> P ex.
 Proof. intros env act src P Ha Hs f doact e p cp ex H. exact (run_raises env act src P Ha Hs f doact e p cp ex H). Qed.
 Print Assumptions C08_interpreter_raises_only_what_actions_raise.
+
+(* ---- what the build phase can raise ---- *)
+(* proofs/BuildRaises.v: for every parser state (any list of blueprints), options and heap, build_database raises nothing but
+   TableNotFoundError, ColumnNotFoundError, DatabaseValidationError, ValidationError — the library's own exceptions — or a marker
+   EStuck k of the model ("outside the model", not a Python exception).  The TypeError / AttributeError branches of
+   Table.add_column, Table.add_index, Enum.add_item and Database.add are unreachable from the build: what reaches them is a
+   column, an index with a subject list, an enum with an item list, a reference with both column lists, a table. *)
+From PyDBML Require Import BuildRaises.
+Theorem C08_build_phase_raises_only_the_library_exceptions :
+  forall st allow sq dq h h' e, build_database st allow sq dq h = (h', Raise e) ->
+    e = ETableNotFound \/ e = EColumnNotFound \/ e = EDatabaseValidation \/ e = EValidation \/ exists k, e = EStuck k.
+Proof. exact build_phase_raises_only. Qed.
+Print Assumptions C08_build_phase_raises_only_the_library_exceptions.
+
+(* the whole of PyDBMLParser.parse *)
+Theorem C08_parse_raises_only_listed_exceptions :
+  forall source allow sq dq h h' e, parser_parse source allow sq dq h = (h', Raise e) ->
+    In e parse_phase_excs \/
+    e = ETableNotFound \/ e = EColumnNotFound \/ e = EDatabaseValidation \/ e = EValidation \/ exists k, e = EStuck k.
+Proof. exact parser_parse_raises_only. Qed.
+Print Assumptions C08_parse_raises_only_listed_exceptions.
+
+(* non-vacuity: each of the four is raised by an actual document *)
+Example C08_build_phase_exceptions_occur :
+  snd (parser_parse (s2l "Ref: a.x > b.y") false 0 1 []) = Raise ETableNotFound /\
+  snd (parser_parse (s2l "Table a {
+ x int
+}
+Ref: a.z > a.x") false 0 1 []) = Raise EColumnNotFound /\
+  snd (parser_parse (s2l "Table a {
+ x int
+}
+Table a {
+ y int
+}") false 0 1 []) = Raise EDatabaseValidation /\
+  snd (parser_parse (s2l "Table a {
+ x int
+}
+TableGroup g {
+ a
+ a
+}") false 0 1 []) = Raise EValidation.
+Proof. vm_compute. repeat split; reflexivity. Qed.
